@@ -32,6 +32,8 @@ NAME_POOL = [
     ("mix ", 0), ("mix",), (0, " waste"), (2, " Buns"), ("Big ", 4, " Rolls"), ("big ", 4, " rolls"), ("buns for ", 4.0), ("dough ", Fraction(1, 2)), ("dough ", 0.5),
     # white space other than blank and tab inside a name (legal in the unquoted spelling too)
     ("olive\u00a0oil",), ("a\u3000b",), ("form\x0cfeed",), ("thin\u2009space",),
+    # decomposed accents (letter + combining mark): not the same text as the precomposed spelling, and longer
+    ("cre\u0300me bru\u0302le\u0301e",), ("cafe\u0301",), ("jalapen\u0303o",),
 ]
 STEP_POOL = [("fry",), ("chop",), ("boil",), ("mix well",), ("bake at 180",), ("simmer ", 10, " min",), ("slice, thinly",), ("it's done",), ("2 minute rest",), ("rest ", 0, " min"), ("prove ", 0.0, " h")]
 
